@@ -332,7 +332,7 @@ class PolyhedralTerm(Term):
             variables={
                 k: -v / self.get_coefficient(var_to_isolate) for k, v in self.variables.items() if k != var_to_isolate
             },
-            constant=self.constant / self.get_coefficient(var_to_isolate),
+            constant=-self.constant / self.get_coefficient(var_to_isolate),
         )
 
     @staticmethod
